@@ -1025,7 +1025,15 @@ class _Tree(_ArithmeticMixin, _Base):
             min = self._to_key(min)
             bucket = self._findbucket(min)
         if bucket is not None:
-            return bucket.minKey(min)
+            try:
+                return bucket.minKey(min)
+            except ValueError:
+                # min is larger than every key of the bucket it would
+                # belong to: the answer is the first key of the next one.
+                bucket = bucket._next
+                if bucket is None:
+                    raise
+                return bucket.minKey()
         raise ValueError('empty tree')
 
     def maxKey(self, max=_marker):
